@@ -111,6 +111,26 @@ def handle (op : String) (args : List Sexp) : Option String :=
       let env ← envOf e
       let (r, log) := parseTop env s
       pure ("(" ++ showRecord r ++ " (" ++ " ".intercalate (log.map showEvent) ++ "))")
+  | "c04.batch", xs => do
+      -- formulas…, then the environment: `((tree record) …)`
+      let envS ← xs.getLast?
+      let env ← envOf envS
+      let fs ← (xs.dropLast).mapM strArg
+      let one (s : List Char) : String :=
+        let tree := match parseFormula s with
+          | .ok e => showExpr e
+          | .error .syntax => "!syntax"
+          | .error .name => "!name"
+        let (r, _) := parseTop env s
+        "(" ++ tree ++ " " ++ showRecord r ++ ")"
+      pure ("(" ++ " ".intercalate (fs.map one) ++ ")")
+  | "fn", (n :: vs) => do
+      -- `fn NAME v…`: the model of a registered builtin applied to values
+      let name ← strArg n
+      let args ← vs.mapM Value.ofSexp
+      match Builtins.model? (String.ofList name) with
+      | some b => pure (showRes (b args))
+      | none => pure "(o unmodelled-builtin)"
   | "arith", [.atom o, a, b] => do
       let aop ← arithOf o
       pure (showRes (evalArith 64 aop (← Value.ofSexp a) (← Value.ofSexp b)))
